@@ -387,6 +387,11 @@ func genC01Case(t *rapid.T) (*ScalarCase, bool) {
 		c.CallFns = []string{"x" + key}
 	}
 	c.Rules = []string{rt + msg}
+	if rapid.IntRange(0, 5).Draw(t, "quotedNeighbour") == 2 {
+		// a satisfied rule with a quoted message in front of the size rule (the value is never empty here): the
+		// list is split quote-aware, a quote is closed by the next quote - also right after a back slash
+		c.Rules = append([]string{rapid.SampledFrom([]string{`required|'need, really\'`, `required|'a,b'`, `noeq=77777|'n,b\'`, `required|'C:\'`}).Draw(t, "neighbourRule")}, c.Rules...)
+	}
 	c.Carrier = rapid.SampledFrom(Carriers).Draw(t, "carrier")
 	for i := 0; i < 8 && !c.carrierOK(); i++ {
 		c.Carrier = Carriers[(indexOf(Carriers, c.Carrier)+1)%len(Carriers)]
